@@ -9,7 +9,8 @@ shared world is gated by a deterministic scheduler, so exactly one requester per
 the order a schedule (list of requester ids) dictates:
     cache read    os.path.exists as called by mapproxy.cache.file (FileCache.load_tile / is_cached) and os.lstat
                   (load_tile_metadata of TileManager.is_cached when an expire timestamp is set; merged with the exists
-                  call of the same is_cached into one look)
+                  call of the same is_cached into one look; likewise the os.lstat of FileCache.load_tile(with_metadata=True),
+                  the load of a request that waited for the lock)
     lock attempt  FileLock._try_lock (the real LockFile constructor runs inside; time.sleep between attempts is skipped)
     upstream      source.get_map
     cache write   write_atomic as called by mapproxy.cache.file (FileCache._store)
@@ -232,6 +233,19 @@ class World(object):
                     s.tls.in_is_cached = False
             return real_is_cached(tile, dimensions=dimensions)
         cache.is_cached = is_cached
+        # FileCache.load_tile(with_metadata=True) = os.path.exists + os.lstat: one look at the file as well
+        real_load_tile = cache.load_tile
+
+        def load_tile(tile, with_metadata=False, dimensions=None):
+            s = world.sched
+            if with_metadata and s is not None and s.tid() is not None:
+                s.tls.in_load_meta = True
+                try:
+                    return real_load_tile(tile, with_metadata=with_metadata, dimensions=dimensions)
+                finally:
+                    s.tls.in_load_meta = False
+            return real_load_tile(tile, with_metadata=with_metadata, dimensions=dimensions)
+        cache.load_tile = load_tile
 
     def want(self, c):
         """content id the upstream delivers for tile c"""
@@ -468,7 +482,9 @@ class Sched(object):
                 c = (-1, -1, -1)
         entry['res'] = ('read', c, bool(r))
         if getattr(self.tls, 'in_is_cached', False):
-            self.last_exists[entry['pid']] = (path, entry, bool(r))
+            self.last_exists[entry['pid']] = (path, entry, bool(r), True)
+        elif getattr(self.tls, 'in_load_meta', False):
+            self.last_exists[entry['pid']] = (path, entry, bool(r), False)
         self.note_under_lock(entry, [c])
         return r
 
@@ -540,7 +556,9 @@ class Sched(object):
             entry, ex = le[1], le[2]
             self.last_exists[tid] = None
             st = os.lstat(path)
-            entry['res'] = ('read', entry['res'][1], ex and int(st.st_mtime) > self.world.expire_ts)
+            if le[3]:
+                # is_cached: present and not expired
+                entry['res'] = ('read', entry['res'][1], ex and int(st.st_mtime) > self.world.expire_ts)
             return st
         entry = self.gate('read')
         c = self.world.coord_of(path)
